@@ -215,7 +215,8 @@ def separator_law(chk):
         head = call[:call.index('(') + 1]
         args = inner[len(head):]
         first_sep = args.index(',') if ',' in args else None
-        variants = [inner + ',)', inner + ';)', head + ',' + args + ')', inner + ',,)']
+        variants = [inner + ',)', inner + ';)', head + ',' + args + ')', inner + ',,)', inner + ',+)', inner + ',-)', head + '+)', inner + '$)', head.replace('(', '$(') + args + ')',
+                    inner + ')$', inner + '+$2)']
         if first_sep is not None:
             variants.append(head + args[:first_sep] + ',,' + args[first_sep + 1:] + ')')
         for v in variants:
